@@ -44,7 +44,11 @@ Inductive top :=
 | TAppend (o src : objid) (v : list N)          (* o += src   (v = the concatenation, src may be o) *)
 | TClear (o : objid)
 | TDel (o : objid)
-| TThrowing (temps : list (list N)) (e : exn).  (* builds the given temporaries, then throws e *)
+| TThrowing (temps : list (list N)) (e : exn)   (* builds the given temporaries, then throws e *)
+| TFreshVia (res src : objid) (temps : list (list N)) (v : list N).
+    (* res = an operation on src that builds temporaries first (ST::format: the argument closures and the output
+       stream; codecs and conversions: an intermediate buffer; split: the vector's pieces), then the result, then
+       destroys the temporaries — an operation with SEVERAL allocations *)
 
 (* allocate(n) followed by copying v into data(): allocate + user writes *)
 Fixpoint write_all (o : objid) (i : nat) (v : list N) : list bop :=
@@ -58,6 +62,12 @@ Fixpoint build_temps (k : nat) (temps : list (list N)) : list bop :=
   match temps with
   | [] => []
   | d :: t => BNew (scratch_base + k) d :: build_temps (S k) t
+  end.
+
+Fixpoint del_temps (k n : nat) : list bop :=
+  match n with
+  | O => []
+  | S n' => BDel (scratch_base + k) :: del_temps (S k) n'
   end.
 
 (* body of the macro, and whether it ends by throwing *)
@@ -79,6 +89,7 @@ Definition expand (t : top) : list bop * option exn :=
   | TClear o => ([BClear o], None)
   | TDel o => ([BDel o], None)
   | TThrowing temps e => (build_temps 0 temps, Some e)
+  | TFreshVia res _ temps v => (build_temps 0 temps ++ BDef res :: alloc_with res v ++ del_temps 0 (length temps), None)
   end.
 
 Section WithL.
@@ -101,7 +112,7 @@ Definition unwind (st : store) : outcome unit * store := destroy_all L scratch_b
 (* the result object a throwing body may have left half-built *)
 Definition under_construction (t : top) : list objid :=
   match t with
-  | TFreshNRVO res _ _ | TFreshMoveAsg res _ _ => [res]
+  | TFreshNRVO res _ _ | TFreshMoveAsg res _ _ | TFreshVia res _ _ _ => [res]
   | _ => []
   end.
 Fixpoint destroy_if_live (l : list objid) (st : store) : outcome unit * store :=
